@@ -1,9 +1,10 @@
 import Mutiny.Model.CancelAll
 
 /-!
-# C07 — `cancel_all_streams()`: what holds, and the recorded finding D11
+# C07 — `cancel_all_streams()` AS PINNED (unlocked walk): what held, and finding D11 (repaired in /repo by `fix:` 944df07 — the
+  repaired, locked walk and its all-interleavings theorem are in `Props/C07_CancelAllLock.lean`)
 
-`Mutiny/Model/CancelAll.lean`: the unlocked walk of `cancel_all_streams()` over `used_streams`, on top of the stream-id
+`Mutiny/Model/CancelAll.lean`: the unlocked walk (the pinned code) of `cancel_all_streams()` over `used_streams`, on top of the stream-id
 bookkeeping of model M6.
 
 * `c07_cancel_all_quiescent`: while no listener is being created or removed, the walk tells exactly the listed streams to end
@@ -11,7 +12,7 @@ bookkeeping of model M6.
 * `c07_cancel_all_race_counterexample` (**finding D11**): interleaved with the removal of a listener with a LOWER stream id —
   which rewrites the list entry by entry under a lock the walk does not take — the walk reads entries 0 and 1 of
   `[0,1,2]`, then the sentinel of `[1,2,–]`: stream 2 is live, parked or not, and is never told to end.  The same schedule
-  is exhibited on the real channels by `multi sub=cancelall` (known finding D11, replayed on every run of the C07 check).
+  was exhibited on the pinned channels by `multi sub=cancelall` (finding D11; the search runs first on every C07 check: corpus/C07).
 -/
 
 namespace Mutiny.CancelAll
